@@ -1134,6 +1134,230 @@ def operator_stream(ctx, deep=False, model=True):
 
 
 # ---------------------------------------------------------------------------
+# constant mode: (domain dtype) x (range dtype, via discr_kwargs / explicit range) x pad_const
+
+SAFE_RANGE_DTYPES = {'int64': ['int64', 'float64', 'complex128'],
+                     'float32': ['float32', 'float64', 'complex128'],
+                     'float64': ['float64', 'complex128'],
+                     'complex128': ['complex128']}
+
+
+def padconst_choices(dom_dt, ran_dt):
+    """(class, value) list: 0, representable in both dtypes, only in the range dtype, and the
+    same values in other Python/NumPy number types."""
+    out = [('zero', 0), ('both', 2), ('both-np', np.dtype(dom_dt).type(3))]
+    kd, kr = np.dtype(dom_dt).kind, np.dtype(ran_dt).kind
+    if kr == 'f':
+        out.append(('fraction', Fraction(1, 4)))
+        if kd == 'i':
+            out += [('range-only', 0.5), ('range-only-np', np.float64(1.5))]
+        if dom_dt == 'float32' and ran_dt == 'float64':
+            out += [('range-only', 0.1), ('range-only-np', np.float64(0.1))]
+    if kr == 'c':
+        out += [('zero-complex', 0j)]
+        if kd != 'c':
+            out += [('range-only-pycomplex', 1 + 2j), ('range-only-npcomplex', np.complex128(2 - 1j)),
+                    ('range-only-imag', 1j)]
+        else:
+            out += [('both-pycomplex', 1 + 2j)]
+    return out
+
+
+def padconst_plan():
+    for dom_dt, rans in SAFE_RANGE_DTYPES.items():
+        for ran_dt in rans:
+            vias = ['same'] if ran_dt == dom_dt else ['kwargs', 'range']
+            for via in vias:
+                for cls, val in padconst_choices(dom_dt, ran_dt):
+                    yield dom_dt, ran_dt, via, cls, val
+
+
+def padconst_stratum(dom_dt, ran_dt, via, cls):
+    return 'padconst/{}->{}/{}/{}'.format(dom_dt, ran_dt, via, cls)
+
+
+def as_range_value(val, ran_dt):
+    """pad_const converted to the range dtype, independently of the code under test."""
+    if isinstance(val, Fraction):
+        val = float(val)
+    return np.array(val, dtype=ran_dt)[()]
+
+
+def cfrac(z):
+    z = complex(z)
+    return Fraction(z.real), Fraction(z.imag)
+
+
+def padconst_stream(ctx, deep=False, model=True):
+    import odl
+    import warnings
+    rng = ctx.rng
+    lines, answers, owners = [], [], []
+    reps = 1 if (ctx.quick and not deep) else 3
+    for dom_dt, ran_dt, via, cls, val in padconst_plan():
+        for rep in range(reps):
+            ndim = rng.choice([1, 1, 2])
+            n = [rng.randint(1, 4) for _ in range(ndim)]
+            pads = [(rng.randint(0, 2), rng.randint(0, 2)) for _ in range(ndim)]
+            if all(l + r_ == 0 for l, r_ in pads):
+                pads[0] = (1, 1)
+            # one axis may shrink instead (the constant then only fills the growing ones)
+            m = [nn + l + r_ for nn, (l, r_) in zip(n, pads)]
+            offs = [l for l, _ in pads]
+            cell = 0.5
+            lo = [float(rng.randint(-3, 3)) for _ in range(ndim)]
+            hi = [a + nn * cell for a, nn in zip(lo, n)]
+            strat = padconst_stratum(dom_dt, ran_dt, via, cls)
+            desc = dict(kind='padconst', dom_dtype=dom_dt, ran_dtype=ran_dt, via=via, cls=cls,
+                        pad_const=repr(val), shape=n, newshape=m, off=offs,
+                        vseed=rng.getrandbits(32))
+            key = 'ResizingOperator pad_const ' + strat
+            ctx.case(('padconst', dom_dt, ran_dt, via, cls))
+            ctx.hit(strat)
+            problems = []
+            try:
+                with warnings.catch_warnings():
+                    warnings.simplefilter('ignore')
+                    dom = odl.uniform_discr(lo, hi, n, dtype=dom_dt)
+                    if via == 'range':
+                        ran_in = odl.uniform_discr([a - o * cell for a, o in zip(lo, offs)],
+                                                   [a - o * cell + mm * cell
+                                                    for a, o, mm in zip(lo, offs, m)], m,
+                                                   dtype=ran_dt)
+                        op = odl.ResizingOperator(dom, ran_in, pad_mode='constant', pad_const=val)
+                    elif via == 'kwargs':
+                        op = odl.ResizingOperator(dom, ran_shp=m, offset=offs, pad_mode='constant',
+                                                  pad_const=val, discr_kwargs={'dtype': ran_dt})
+                    else:
+                        op = odl.ResizingOperator(dom, ran_shp=m, offset=offs, pad_mode='constant',
+                                                  pad_const=val)
+                    cexp = as_range_value(val, ran_dt)
+                    x = rand_data(random.Random(desc['vseed']), tuple(n), dom_dt)
+                    res = op(dom.element(x)).asarray()
+                    out = op.range.element()
+                    op(dom.element(x), out=out)
+                    if op.range.dtype != np.dtype(ran_dt) or res.dtype != np.dtype(ran_dt):
+                        problems.append('range/result dtype {} / {}'.format(op.range.dtype,
+                                                                           res.dtype))
+                    if [int(o) for o in op.offset] != [o if mm != nn else 0
+                                                       for o, nn, mm in zip(offs, n, m)]:
+                        problems.append('offset {}'.format(op.offset))
+                    widths = [(o, mm - nn - o) for o, nn, mm in zip(offs, n, m)]
+                    exp = np.pad(x.astype(ran_dt), widths, mode='constant', constant_values=cexp)
+                    if not np.array_equal(res, exp):
+                        mask = np.ones(tuple(m), dtype=bool)
+                        mask[tuple(slice(o, o + nn) for o, nn in zip(offs, n))] = False
+                        problems.append('op(x) differs from np.pad(x.astype({}), constant_values='
+                                        '{!r}): padded entries are {}'.format(
+                                            ran_dt, cexp, np.unique(res[mask]).tolist()[:4]))
+                    if not np.array_equal(out.asarray(), res):
+                        problems.append('op(x, out=out) differs from op(x)')
+                    if complex(op.pad_const) != complex(cexp):
+                        problems.append('op.pad_const = {!r}, the constant converted to the range '
+                                        'dtype is {!r}'.format(op.pad_const, cexp))
+                    if bool(op.is_linear) != bool(cexp == 0):
+                        problems.append('is_linear = {} although the padding constant is {!r}'
+                                        .format(op.is_linear, cexp))
+                    if op.is_linear:
+                        y = rand_data(random.Random(desc['vseed'] + 1), tuple(m), ran_dt)
+                        lhs = op(dom.element(x)).inner(op.range.element(y))
+                        rhs = dom.element(x).inner(op.adjoint(op.range.element(y)))
+                        # real domain, complex range: the operator is real-linear and the
+                        # identity holds for the real inner product Re<.,.>
+                        if np.dtype(dom_dt).kind != 'c' and np.dtype(ran_dt).kind == 'c':
+                            lhs = complex(lhs).real
+                        if complex(lhs) != complex(rhs):
+                            problems.append('<Ax, y> = {} but <x, A*y> = {}'.format(lhs, rhs))
+                    else:
+                        try:
+                            op.adjoint
+                            problems.append('nonlinear operator exposes an adjoint')
+                        except NotImplementedError:
+                            pass
+                        dz = op.derivative(dom.element(x))(dom.element(x)).asarray()
+                        if not np.array_equal(dz, np.pad(x.astype(ran_dt), widths,
+                                                         mode='constant')):
+                            problems.append('derivative is not the zero-padding operator')
+                    # model: real and imaginary part separately (exact values of the constant)
+                    cre, cim = cfrac(cexp)
+                    head = 'resize mode=constant dir=forward shape={} newshape={} off={}'.format(
+                        fl(n), fl(m), fl(offs))
+                    xr = np.real(x).ravel().tolist()
+                    xi = np.imag(x).ravel().tolist()
+                    lines.append(head + ' c={} data={}'.format(fs(cre), fl(xr)))
+                    answers.append('ok r=' + fl(np.real(res).ravel().tolist()))
+                    owners.append(desc)
+                    lines.append(head + ' c={} data={}'.format(fs(cim), fl(xi)))
+                    answers.append('ok r=' + fl(np.imag(res).ravel().tolist()))
+                    owners.append(desc)
+            except Exception as e:  # noqa
+                problems.append('a legal call raised {}: {}'.format(type(e).__name__, str(e)[:160]))
+            if problems:
+                ctx.violation(key, '; '.join(problems)[:600], desc)
+    # resize_array: arr dtype x out dtype x pad_const
+    ra_plan = [
+        ('int64', 'float64', 0.5, 'ok'), ('int64', 'float64', np.float64(1.5), 'ok'),
+        ('int64', None, 2, 'ok'), ('int64', None, 0.5, 'refuse'), ('int64', 'int64', 0.5, 'refuse'),
+        ('float64', 'complex128', 1 + 2j, 'ok'), ('float64', 'complex128', np.complex128(2 - 1j), 'ok'),
+        ('float64', None, 1 + 2j, 'refuse'), ('float64', 'float64', 1j, 'refuse'),
+        ('float32', 'float64', 0.1, 'ok'), ('float32', None, 0.25, 'ok'),
+        ('float32', 'complex128', 1j, 'ok'), ('float64', 'int64', 0.5, 'refuse'),
+        ('float64', 'int64', 3, 'ok'), ('complex128', 'complex128', 1 + 2j, 'ok'),
+        ('uint8', 'int64', -2, 'ok'), ('uint8', None, -2, 'refuse'),
+    ]
+    for arr_dt, out_dt, val, want in ra_plan:
+        strat = 'padconst/resize_array/{}->{}/{}'.format(arr_dt, out_dt or 'none', want)
+        ctx.case(('padconst-ra', arr_dt, out_dt, want))
+        ctx.hit(strat)
+        n, l, r_ = rng.randint(1, 4), rng.randint(0, 2), rng.randint(1, 2)
+        x = rand_data(random.Random(rng.getrandbits(32)), (n,), arr_dt)
+        desc = dict(kind='padconst-ra', arr_dtype=arr_dt, out_dtype=out_dt, pad_const=repr(val),
+                    data=[str(v) for v in x.tolist()], off=l, newlen=n + l + r_)
+        res_dt = out_dt or arr_dt
+        problems = []
+        try:
+            kw = dict(offset=l, pad_const=val)
+            if out_dt:
+                kw['out'] = np.full(n + l + r_, 9, dtype=out_dt)
+            import warnings as _w
+            with _w.catch_warnings():
+                _w.simplefilter('ignore')
+                res = resize_array(x, (n + l + r_,), **kw)
+            if want == 'refuse':
+                problems.append('pad_const {!r} is not representable in the result dtype {} but '
+                                'was accepted: {}'.format(val, res_dt, res.tolist()))
+            else:
+                exp = np.pad(x.astype(res_dt), (l, r_), mode='constant',
+                             constant_values=np.array(val, dtype=res_dt)[()])
+                if res.dtype != np.dtype(res_dt) or not np.array_equal(res, exp):
+                    problems.append('got {} ({}), expected {}'.format(res.tolist(), res.dtype,
+                                                                      exp.tolist()))
+                cre, cim = cfrac(np.array(val, dtype=res_dt)[()])
+                head = 'resize mode=constant dir=forward shape={} newshape={} off={}'.format(
+                    n, n + l + r_, l)
+                lines.append(head + ' c={} data={}'.format(fs(cre), fl(np.real(x).tolist())))
+                answers.append('ok r=' + fl(np.real(res).tolist()))
+                owners.append(desc)
+                lines.append(head + ' c={} data={}'.format(fs(cim), fl(np.imag(x).tolist())))
+                answers.append('ok r=' + fl(np.imag(res).tolist()))
+                owners.append(desc)
+        except ValueError as e:
+            if want != 'refuse':
+                problems.append('a legal call raised ValueError: ' + str(e)[:160])
+        except Exception as e:  # noqa
+            problems.append('raised {}: {}'.format(type(e).__name__, str(e)[:160]))
+        if problems:
+            ctx.violation('resize_array pad_const ' + strat, '; '.join(problems)[:600], desc)
+    if model and lines:
+        outs = core.run_driver('C16', lines)
+        for line, impl, ans, desc in zip(lines, answers, outs, owners):
+            ctx.hit('padconst-model')
+            if impl != ans:
+                ctx.disagree({'kind': 'padconst', 'line': line[:300], 'case': desc}, impl[:300],
+                             ans[:300], stream='pad_const x dtype')
+
+
+# ---------------------------------------------------------------------------
 # HISTORY stream: one kwargs dict / one operator / one input / one `out` reused across steps
 
 def history_scenarios(ctx, count):
@@ -1366,6 +1590,7 @@ def run(ctx):
     nppad_stream(ctx)
     array_stream(ctx)
     operator_stream(ctx)
+    padconst_stream(ctx)
     history_stream(ctx)
     # coverage of the model's branches by this run (a silent loss of coverage must be visible)
     expected = ['{}/{}/{}'.format(m, d, c) for m in MODES for d in DIRS
@@ -1376,6 +1601,8 @@ def run(ctx):
     expected += ['reference/' + m for m in MODES] + ['discr-model', 'opadj-model', 'opadjnd-model', 'offsp-model',
                  'operator/one-cell-axis', 'operator/ndim=3']
     expected += ['operator/inconsistent/' + k for ks in BAD_KINDS.values() for k in ks]
+    expected += [padconst_stratum(a, b, v, c) for a, b, v, c, _ in padconst_plan()]
+    expected += ['padconst-model']
     expected += ['history/kwargs-reuse', 'history/operator-reuse', 'history/array-reuse',
                  'history-model']
     expected_err = ['err:offset', 'err:padconst-adjoint', 'err:order0-empty', 'err:order1-short',
@@ -1397,6 +1624,7 @@ def search(ctx, broken):
         array_stream(ctx, deep=True, model=False)
         operator_stream(ctx, deep=True, model=False)
         history_stream(ctx, deep=True, model=False)
+        padconst_stream(ctx, deep=True, model=False)
     finally:
         ctx.tier = saved
 
@@ -1417,6 +1645,14 @@ def replay(ctx, case):
         problems, _, _ = run_op_case(ctx, case)
         problems = [t for tag, t in problems if case.get('tag') in (None, tag)]
         return '; '.join(problems) if problems else None
+    if case.get('kind') in ('padconst', 'padconst-ra'):
+        sub = core.Ctx(ctx.pid, 'thorough', ctx.seed)
+        padconst_stream(sub, deep=True, model=False)
+        hits = [v for v in sub.violations
+                if all(v['replay'].get(k) == case.get(k) for k in
+                       ('kind', 'dom_dtype', 'ran_dtype', 'via', 'cls', 'arr_dtype', 'out_dtype',
+                        'pad_const'))]
+        return hits[0]['what'] if hits else None
     if case.get('kind') == 'history':
         problems = run_history(core.Ctx(ctx.pid, ctx.tier, ctx.seed), case, [], [], [])
         problems = [t for tag, t in problems if case.get('tag') in (None, tag)]
